@@ -293,3 +293,72 @@ B("benign-record-copy-list", ["C08"], TK,
 B("benign-reverse-inplace", ["C08"], TK,
   """        self.state_record_list = self.state_record_list[::-1]""",
   """        self.state_record_list.reverse()""")
+
+# ---------------------------------------------------------------------------------------- C18
+M("C18-drop-one-pop", "C18", "R18.1", TK,
+  """                self.allocated_facility_id_record.pop(step_time)
+""", "")
+M("C18-insert-off-by-one", "C18", "R18.1i", WK,
+  """                else:
+                    self.assigned_task_id_record.insert(step_time, self.assigned_task_id_record[step_time - 1])
+                    self.cost_list.insert(step_time, 0.0)""",
+  """                else:
+                    self.assigned_task_id_record.insert(step_time, self.assigned_task_id_record[step_time - 1])
+                    self.cost_list.insert(step_time - 1, 0.0)""")
+M("C18-unguarded-insert-team", "C18", "R18.2", TM,
+  """        for step_time in sorted(absence_time_list):
+            if step_time < len(self.cost_list):
+                self.cost_list.insert(step_time, 0.0)""",
+  """        for step_time in sorted(absence_time_list):
+            self.cost_list.insert(step_time, 0.0)""")
+M("C18-time-unconditional", "C18", "R18.2", PJ,
+  """            if step_time < len(self.cost_list):
+                self.cost_list.pop(step_time)
+                self.time = self.time - 1""",
+  """            if step_time < len(self.cost_list):
+                self.cost_list.pop(step_time)
+            self.time = self.time - 1""")
+M("C18-inserted-cost-nonzero", "C18", "R18.3", FA,
+  """                if step_time == 0:
+                    self.assigned_task_id_record.insert(step_time, None)
+                    self.cost_list.insert(step_time, 0.0)""",
+  """                if step_time == 0:
+                    self.assigned_task_id_record.insert(step_time, None)
+                    self.cost_list.insert(step_time, self.cost_per_time)""")
+M("C18-skip-subproject-again", "C18", "R18.1i", WF,
+  """        for t in self.task_list:
+            t.insert_absence_time_list(absence_time_list)""",
+  """        for t in self.task_list:
+            if not isinstance(t, BaseSubProjectTask):
+                t.insert_absence_time_list(absence_time_list)""")
+M("C18-removal-ascending", "C18", "R18.1", CP,
+  """        for step_time in sorted(absence_time_list, reverse=True):
+            if step_time < len(self.state_record_list):
+                self.placed_workplace_id_record.pop(step_time)""",
+  """        for step_time in sorted(absence_time_list):
+            if step_time < len(self.state_record_list):
+                self.placed_workplace_id_record.pop(step_time)""")
+M("C18-no-dedupe", "C18", "R18.4", PJ,
+  """        self.workflow.insert_absence_time_list(new_absence_time_list)""",
+  """        self.workflow.insert_absence_time_list(absence_time_list)""")
+M("C18-inserted-working-state", "C18", "R18.3", WK,
+  """                    self.cost_list.insert(step_time, 0.0)
+                    self.state_record_list.insert(step_time, BaseWorkerState.FREE)
+                else:""",
+  """                    self.cost_list.insert(step_time, 0.0)
+                    self.state_record_list.insert(step_time, BaseWorkerState.WORKING)
+                else:""")
+M("C18-org-skips-workplaces", "C18", "R18.1", OG,
+  """        for workplace in self.workplace_list:
+            workplace.remove_absence_time_list(absence_time_list)
+""", "")
+B("benign-guard-spelling", ["C18"], TM,
+  """            if step_time < len(self.cost_list):
+                self.cost_list.insert(step_time, 0.0)""",
+  """            if len(self.cost_list) > step_time:
+                self.cost_list.insert(step_time, 0.0)""")
+B("benign-guard-negated", ["C18"], OG,
+  """            if step_time < len(self.cost_list):
+                self.cost_list.pop(step_time)""",
+  """            if not step_time >= len(self.cost_list):
+                self.cost_list.pop(step_time)""")
